@@ -3,7 +3,7 @@
     names) is compared with the model (exactly: rows in rowid order) and judged
     by the spec (as sets). *)
 From Coq Require Import String Ascii List Bool Arith ZArith.
-From Raven Require Import Base.GoStr Base.Like Model.Pattern Model.Names Spec.Names.
+From Raven Require Import Base.GoStr Model.Pattern Model.Names Spec.Names.
 Import ListNotations.
 
 Definition obox := (str * list (Z * Z) * Z)%type.
@@ -28,8 +28,8 @@ Definition set_eqb {A} (e : A -> A -> bool) (a b : list A) : bool :=
 Definition cls_code (k : option cls) : nat :=
   match k with
   | None => 0
-  | Some K_quoted_space => 1 | Some K_quoted_escape => 2 | Some K_like_wildcard => 3
-  | Some K_like_case => 4 | Some K_rename_into_child => 5 | Some K_rename_leading_slash => 6
+  | Some K_quoted_space => 1 | Some K_quoted_escape => 2
+  | Some K_rename_into_child => 5 | Some K_rename_leading_slash => 6
   | Some K_rename_partial => 7 | Some K_inbox_rename_orphan => 8 | Some K_protected_case => 9
   | Some K_inbox_twin => 10 | Some K_roles_shadow => 11 | Some K_lsub_persists => 12
   | Some K_lsub_adds_inbox => 13
